@@ -392,9 +392,9 @@ Proof.
   set (s2 := do_chdir (fake_of outer_patched outer_base k_chdir) (e_real_chdir e) (e_root e) s1).
   assert (H2 : novalue (e_real_exit e) s2).
   { eapply novalue_same_attrs; [|exact H1]. apply do_chdir_facts. }
-  pose proof (run_ops_novalue (e_real_exit e) e (fst p) s2 Hr H2) as H3.
+  pose proof (run_ops_novalue (e_real_exit e) e (eff_ops p) s2 Hr H2) as H3.
   unfold end_outcome. destruct (snd p); try (destruct catches_sysexit; discriminate); try discriminate.
-  destruct (opt_value_eqb (get k_exit (run_ops e (fst p) s2)) (fake_of inner_patched inner_base k_exit)).
+  destruct (opt_value_eqb (get k_exit (run_ops e (eff_ops p) s2)) (fake_of inner_patched inner_base k_exit)).
   - destruct catches_sysexit; discriminate.
   - rewrite (H3 k_exit). discriminate.
 Qed.
@@ -570,22 +570,8 @@ Proof.
   split; [congruence|]. split; [congruence|]. split; [rewrite Hd, Hd4; exact SM|]. cbn. congruence.
 Qed.
 
-Lemma body_rest : forall e p s m0,
-  no_path_ins (fst p) -> stacked m0 (mods s) -> mod_ops_ok m0 (fst p) ->
-  path (fst (body e p s)) = e_root e :: path s /\ meta (fst (body e p s)) = meta s /\
-  stacked m0 (mods (fst (body e p s))).
-Proof.
-  intros e p s m0 NP S MO. unfold body. cbn [fst].
-  change path_insert_in_try with true. cbv iota.
-  set (s1 := with_path (e_root e :: path s) s).
-  destruct (do_chdir_facts (fake_of outer_patched outer_base k_chdir) (e_real_chdir e) (e_root e) s1) as (_ & P2 & M2 & D2 & _).
-  set (s2 := do_chdir (fake_of outer_patched outer_base k_chdir) (e_real_chdir e) (e_root e) s1) in *.
-  split; [rewrite run_ops_path by exact NP; rewrite P2; reflexivity|].
-  split; [rewrite run_ops_meta; rewrite M2; reflexivity|].
-  apply run_ops_mods; auto. rewrite D2. exact S.
-Qed.
-
-(* ------------------------------------------------------------------ the main statements *)
+Lemma mod_ops_ok_eff : forall m0 p, mod_ops_ok m0 (fst p) -> mod_ops_ok m0 (eff_ops p).
+Proof. intros m0 p H. destruct (eff_ops_cases p) as [E|E]; rewrite E; [intros o []|exact H]. Qed.
 
 Lemma enter_parse_inr_inv : forall e s s', enter_parse e s = inr s' ->
   e_cython e = true /\ get k_cythonize s = None.
@@ -659,7 +645,7 @@ Proof.
                 (if path_insert_in_try then with_path (e_root e :: path s2) s2 else s2)) as (_ & _ & M & _).
     rewrite M. destruct path_insert_in_try; reflexivity. }
   assert (S3 : stacked (mods s) (mods (fst (body e p s2)))).
-  { unfold body. cbn [fst]. apply run_ops_mods; auto.
+  { unfold body. cbn [fst]. apply run_ops_mods; [|apply mod_ops_ok_eff; exact MO].
     destruct (do_chdir_facts (fake_of outer_patched outer_base k_chdir) (e_real_chdir e) (e_root e)
                 (if path_insert_in_try then with_path (e_root e :: path s2) s2 else s2)) as (_ & _ & _ & D & _).
     rewrite D. destruct path_insert_in_try; exact S2. }
